@@ -288,9 +288,51 @@ def _bounded_quick():
     return ([r.get('failing_input')] if r.get('confirmed') else []), 1
 
 
+SC_ = "tdgl.sources.scaling"
+
+
+def run_linear_ramp(mutate=None):
+    """tdgl.sources.scaling: linear_ramp is `initial` before tmin, `final` from tmax on, the straight line between (tmin, initial) and (tmax, final) in between
+    (continuous at both ends), independent of the position arguments; LinearRamp / Scale build TIME-DEPENDENT parameters around it (so a product with a field
+    parameter is time-dependent, C16) and hand the ramp its keyword arguments unchanged"""
+    import z3
+    from pyvc import instrument, vc as vcm
+    from pyvc.sym import SR, check, assume, explore
+    mut = [(o, n) for (m, o, n) in (mutate or []) if m == SC_]
+    L = instrument.load(SC_, mutate=mut, vc=vcm.VC())
+
+    def body():
+        R = z3.Real
+        t, tmin, tmax, a, b = [SR(R(n)) for n in ("t", "tmin", "tmax", "initial", "final")]
+        assume(tmin < tmax)
+        x = object()
+        v = SR.lift(L["linear_ramp"](x, x, x, t=t, tmin=tmin, tmax=tmax, initial=a, final=b))
+        line = a + (b - a) * (t - tmin) / (tmax - tmin)
+        want = sym.ite(t.e < tmin.e, a, sym.ite(t.e < tmax.e, line, b))
+        check("C16.linear_ramp.initial_before_final_after_straight_line_between", sym.eq(v, want))
+        check("C16.linear_ramp.between_initial_and_final", z3.Or(z3.And(v.e >= a.e, v.e <= b.e), z3.And(v.e <= a.e, v.e >= b.e)))
+        seen = {}
+
+        class P:
+            def __init__(self, func, time_dependent=False, **kw):
+                seen.update(func=func, time_dependent=time_dependent, kw=kw)
+        L.ns["Parameter"] = P
+        L["LinearRamp"](tmin=tmin, tmax=tmax, initial=a, final=b)
+        check("C16.linear_ramp.parameter_is_time_dependent_and_carries_the_ramp_arguments",
+              z3.BoolVal(seen.get("func") is L["linear_ramp"] and seen.get("time_dependent") is True and set(seen.get("kw", {})) == {"tmin", "tmax", "initial", "final"}
+                         and seen["kw"]["tmin"] is tmin and seen["kw"]["tmax"] is tmax and seen["kw"]["initial"] is a and seen["kw"]["final"] is b))
+        seen.clear()
+        f = lambda x, y, z, *, t, k=1: k
+        L["Scale"](f, k=a)
+        check("C16.scale.parameter_is_time_dependent", z3.BoolVal(seen.get("func") is f and seen.get("time_dependent") is True and seen.get("kw") == {"k": a}))
+    obls, n = explore(body)
+    return dict(obls=obls, paths=n, sources=[L.info()], consistent=sym.consistent())
+
+
 def units():
     return [Unit("CompositeParameter[operand contract -> composite contract]", M + ":Parameter / CompositeParameter", run_induction, props=["C16", "C14"], timeout=900),
             Unit("solver touch points", M + ":CompositeParameter", run_solver_accepts, props=["C16"], timeout=300),
+            Unit("sources.scaling", SC_ + ":linear_ramp, LinearRamp, Scale", run_linear_ramp, props=["C16"], timeout=300),
             _h.bounded_unit("real parameters on numeric leaves [bounded]", "tdgl.parameter (real classes)", "C16", _bounded_quick, "composites_of_numeric_leaves_are_pointwise_and_survive_pickling", timeout=900)]
 
 
@@ -397,3 +439,18 @@ def replay(unit, obl):
     if problems:
         return dict(confirmed=True, failing_input=problems[0], n_failing=len(problems), tdgl_file=tdgl.__file__)
     return dict(confirmed=False, tdgl_file=tdgl.__file__)
+
+
+MUTANTS = [
+    dict(name="ramp stays at the initial value until tmax", units=["sources.scaling"], edits=[(SC_, "    if t < tmin:\n        return initial", "    if t < tmax:\n        return initial")]),
+    dict(name="ramp slope uses tmax as the origin", units=["sources.scaling"], edits=[(SC_, "(t - tmin) / (tmax - tmin)", "(t - tmax) / (tmax - tmin)")]),
+    dict(name="LinearRamp is not time dependent", units=["sources.scaling"], edits=[(SC_, "        final=final,\n        time_dependent=True,", "        final=final,\n        time_dependent=False,")]),
+    dict(name="LinearRamp swaps initial and final", units=["sources.scaling"], edits=[(SC_, "        initial=initial,\n        final=final,", "        initial=final,\n        final=initial,")]),
+]
+
+
+def thorough(seed=0):
+    from pyvc import harness
+    summary, broken = harness.run_mutants("checks.c16", [u for u in units() if u.name == "sources.scaling"], MUTANTS)
+    return dict(coverage=dict(mutants=summary, mutants_killed=sum(1 for m in summary if m["verdict"] in ("killed", "not-proved") and m["expect"] == "killed"),
+                              mutants_total=sum(1 for m in summary if m["expect"] == "killed")), broken=broken)
